@@ -206,6 +206,30 @@ def run(chk):
         if not (np.allclose(M1, wantM, rtol=1e-12, atol=0) and np.allclose(N1, wantN, rtol=1e-12, atol=0) and abs(ej_ - want_ej) <= 1e-9 * max(want_ej, 1e-300) + 1e-300):
             chk.fail("each populated bin is multiplied by the retention fraction of its mean mass (with the arguments given to natal_kicks)", case_d,
                      dict(M_after=[float(x) for x in M1], expected=[float(x) for x in wantM], ejected=float(ej_), expected_ejected=float(want_ej)))
+    # the in-place contract for any array the caller may hand over: columns of a table, reversed / strided views, both methods
+    for meth_, kwv in (("sigmoid", dict(slope=1.0, scale=20.0)), ("maxwellian", dict(vesc=60.0, FeH=-1.0)), ("sigmoid", dict(slope=0.4, scale=10.0))):
+        tabv = np.array([[30.0, 2.0], [12.0, 1.5], [0.4, 0.05], [55.0, 3.0], [8.0, 1.0], [21.0, 2.0]])
+        for form_, (Mv, Nv) in (("contiguous", (tabv[:, 0].copy(), tabv[:, 1].copy())), ("table columns", (tabv[:, 0], tabv[:, 1])),
+                                ("reversed views", (tabv[::-1, 0], tabv[::-1, 1])), ("every other bin", (tabv[::2, 0], tabv[::2, 1]))):
+            M0v, N0v = np.array(Mv, dtype=float), np.array(Nv, dtype=float)
+            rM, rN, ejv = kicks.natal_kicks(Mv, Nv, method=meth_, **kwv)
+            wantM, wantN, wej = M0v.copy(), N0v.copy(), 0.0
+            fnv = (lambda m_: float(kicks._sigmoid_retention_frac(m_, **kwv))) if meth_ == "sigmoid" else (lambda m_: float(kicks._maxwellian_retention_frac(m_, **kwv)))
+            for j_ in range(len(M0v)):
+                if N0v[j_] >= 0.1:
+                    r_ = fnv(M0v[j_] / N0v[j_])
+                    wej += M0v[j_] * (1 - r_)
+                    wantM[j_], wantN[j_] = M0v[j_] * r_, N0v[j_] * r_
+            casev = dict(method=meth_, form=form_, **kwv)
+            chk.note_distinct(casev)
+            if not (rM is Mv and rN is Nv):
+                chk.fail("kicks return the very arrays they were given", casev, "new arrays")
+            if not (np.allclose(Mv, wantM, rtol=1e-12, atol=0) and np.allclose(Nv, wantN, rtol=1e-12, atol=0)):
+                chk.fail("each populated bin is multiplied by the retention fraction of its mean mass (with the arguments given to natal_kicks)", casev,
+                         dict(M_given_after=[float(x) for x in Mv], expected=[float(x) for x in wantM]))
+            if abs(float(ejv) - (float(M0v.sum()) - float(np.sum(Mv)))) > 1e-9 * max(float(M0v.sum()), 1e-300):
+                chk.fail("the mass reported as ejected is exactly the mass removed from the arrays given", casev,
+                         dict(reported=float(ejv), removed=float(M0v.sum()) - float(np.sum(Mv))))
     o = kicks.natal_kicks(M, N, method="SIGMOID", slope=1.0, scale=20.0)
     if not (o[0] is M and o[1] is N):
         chk.fail("kicks return the very arrays they were given", "natal_kicks", "new arrays")
